@@ -775,3 +775,184 @@ Definition pres_optimal (g : graph) (s t : nat) (spec : option N) (r : pres) : P
   | RPath p c => spec = Some c /\ path_cost g p c /\ hd_error p = Some s /\ last p s = t
   | RFuel => False
   end.
+
+(* ================================================================== *)
+(* the bfs model as written: what it returns is a real path, so its     *)
+(* length is at least the specification's hop distance                  *)
+(* ================================================================== *)
+
+Section BfsSound.
+Variable g : graph.
+Variable s : nat.
+
+Definition visited (vis : list (nat * option nat)) (i : nat) : Prop := is_some (alookup i vis) = true.
+
+(* every recorded parent link is an edge from a visited node; only s has no parent *)
+Definition bfs_inv (vis : list (nat * option nat)) : Prop :=
+  (forall i p, alookup i vis = Some (Some p) -> (exists w, In (p, i, w) (ge g)) /\ visited vis p) /\
+  (forall i, alookup i vis = Some None -> i = s).
+
+Lemma expand_inv : forall cur l q vis,
+  bfs_inv vis -> visited vis cur -> (forall x, In x q -> visited vis x) ->
+  (forall x, In x l -> exists w, In (cur, x, w) (ge g)) ->
+  let '(q2, vis2) := fold_left (bfs_expand cur) l (q, vis) in
+  bfs_inv vis2 /\ (forall x, In x q2 -> visited vis2 x).
+Proof.
+  intros cur l; induction l as [|nx l IH]; intros q vis Hinv Hcur Hq Hl; cbn [fold_left].
+  - split; assumption.
+  - unfold bfs_expand at 2. destruct (is_some (alookup nx vis)) eqn:Ev.
+    + apply IH; auto. intros x Hx. apply Hl. right; exact Hx.
+    + assert (Hne : nx <> cur) by (intros ->; unfold visited in Hcur; congruence).
+      assert (Hmono : forall i, visited vis i -> visited ((nx, Some cur) :: vis) i).
+      { intros i Hi. unfold visited in *. cbn [alookup]. destruct (nx =? i); [reflexivity|exact Hi]. }
+      apply IH.
+      * destruct Hinv as [H1 H2]. split.
+        -- intros i p Hi. cbn [alookup] in Hi. destruct (Nat.eqb_spec nx i) as [->|Hni].
+           ++ inversion Hi; subst. split; [apply Hl; left; reflexivity|apply Hmono; exact Hcur].
+           ++ destruct (H1 i p Hi) as [He Hp]. split; [exact He|apply Hmono; exact Hp].
+        -- intros i Hi. cbn [alookup] in Hi. destruct (nx =? i); [discriminate|apply H2; exact Hi].
+      * apply Hmono; exact Hcur.
+      * intros x Hx. apply in_app_iff in Hx. destruct Hx as [Hx|[<-|[]]].
+        -- apply Hmono, Hq; exact Hx.
+        -- unfold visited. cbn [alookup]. rewrite Nat.eqb_refl. reflexivity.
+      * intros x Hx. apply Hl. right; exact Hx.
+Qed.
+
+Lemma recon_sound : forall vis t fuel cur acc p,
+  bfs_inv vis -> visited vis cur ->
+  path_cost (unitw g) (cur :: acc) (N.of_nat (length acc)) -> last (cur :: acc) s = t ->
+  recon fuel (bfs_par vis) cur acc = Some p ->
+  path_cost (unitw g) p (N.of_nat (length p - 1)) /\ hd_error p = Some s /\ last p s = t.
+Proof.
+  intros vis t fuel; induction fuel as [|f IH]; intros cur acc p Hinv Hcur Hpc Hlast Hr; cbn [recon] in Hr;
+    [discriminate|].
+  unfold bfs_par in Hr at 1. unfold visited in Hcur.
+  destruct (alookup cur vis) as [[p0|]|] eqn:Ea; cbn in Hcur; try discriminate.
+  - destruct Hinv as [H1 H2]. destruct (H1 cur p0 Ea) as [[w Hw] Hp0].
+    apply (IH p0 (cur :: acc) p (conj H1 H2) Hp0); [| |exact Hr].
+    + replace (N.of_nat (length (cur :: acc))) with (1 + N.of_nat (length acc))%N by (cbn [length]; lia).
+      constructor; [|exact Hpc]. apply unitw_edges. split; [reflexivity|]. exists w; exact Hw.
+    + rewrite <- Hlast. reflexivity.
+  - inversion Hr; subst p. destruct Hinv as [_ H2]. rewrite (H2 cur Ea) in *.
+    split; [|split; [reflexivity|exact Hlast]].
+    replace (length (s :: acc) - 1) with (length acc) by (cbn [length]; lia). exact Hpc.
+Qed.
+
+Lemma bfs_loop_sound : forall t fuel q vis p c,
+  bfs_inv vis -> (forall x, In x q -> visited vis x) ->
+  bfs_loop fuel g t q vis = RPath p c ->
+  c = N.of_nat (length p - 1) /\ path_cost (unitw g) p c /\ hd_error p = Some s /\ last p s = t.
+Proof.
+  intros t fuel; induction fuel as [|f IH]; intros q vis p c Hinv Hq Hr; cbn [bfs_loop] in Hr; [discriminate|].
+  destruct q as [|cur q']; [discriminate|].
+  destruct (Nat.eqb_spec cur t) as [->|Hne].
+  - destruct (recon (S (length vis)) (bfs_par vis) t []) as [p'|] eqn:Er; [|discriminate].
+    inversion Hr; subst p' c.
+    destruct (recon_sound vis t _ t [] p Hinv (Hq t (or_introl eq_refl)) (PC1 _ t) eq_refl Er) as [H1 [H2 H3]].
+    repeat split; assumption.
+  - pose proof (expand_inv cur (map fst (succs g cur)) q' vis Hinv (Hq cur (or_introl eq_refl))
+                  (fun x Hx => Hq x (or_intror Hx))) as HE.
+    destruct (fold_left (bfs_expand cur) (map fst (succs g cur)) (q', vis)) as [q2 vis2].
+    destruct HE as [Hinv2 Hq2].
+    + intros x Hx. apply in_map_iff in Hx. destruct Hx as [[x' w] [<- Hx]]. exists w. apply succs_in. exact Hx.
+    + eapply IH; eassumption.
+Qed.
+
+End BfsSound.
+
+(* whatever the bfs model returns is a real path from s to t whose reported cost is its
+   number of edges, hence (by the specification's optimality) not below the hop distance;
+   the converse inequality and "None only when unreachable" are the part not proved *)
+Theorem bfs_model_sound : forall g s t p c, wf g ->
+  bfs_model g s t = RPath p c ->
+  path_cost (unitw g) p c /\ hd_error p = Some s /\ last p s = t /\
+  c = N.of_nat (length p - 1) /\
+  exists c0, hop_dist g s t = Some c0 /\ (c0 <= c)%N.
+Proof.
+  intros g s t p c Hwf Hr. unfold bfs_model in Hr.
+  destruct ((s <? gn g) && (t <? gn g)) eqn:Hb; [|discriminate].
+  apply andb_true_iff in Hb. destruct Hb as [Hs Ht]. apply Nat.ltb_lt in Hs, Ht.
+  assert (Hinv : bfs_inv g s [(s, None)]).
+  { split.
+    - intros i p0 Hi. cbn [alookup] in Hi. destruct (s =? i); discriminate.
+    - intros i Hi. cbn [alookup] in Hi. destruct (Nat.eqb_spec s i); [auto|discriminate]. }
+  destruct (bfs_loop_sound g s t (S (S (gn g))) [s] [(s, None)] p c Hinv) as [Hc [Hp [Hh Hl]]]; [|exact Hr|].
+  - intros x [<-|[]]. unfold visited. cbn [alookup]. rewrite Nat.eqb_refl. reflexivity.
+  - repeat split; try assumption.
+    pose proof (hop_dist_spec g s t Hwf Hs Ht) as Hd.
+    assert (Hw : walk (unitw g) s t c).
+    { rewrite <- Hl. apply (path_cost_walk (unitw g) p c Hp s Hh). }
+    destruct (hop_dist g s t) as [c0|]; cbn in Hd.
+    + exists c0. split; [reflexivity|]. apply (proj2 Hd). exact Hw.
+    + exfalso. apply Hd. exists c. exact Hw.
+Qed.
+
+(* ================================================================== *)
+(* the dijkstra model as written: the reported cost is the cost of a    *)
+(* real walk, hence not below the specification's optimum               *)
+(* ================================================================== *)
+
+Lemma pop_min_in : forall {A} (key : A -> N) l x r,
+  pop_min key l = Some (x, r) -> In x l /\ forall y, In y r -> In y l.
+Proof.
+  intros A key l; induction l as [|a l IH]; intros x r H; cbn [pop_min] in H; [discriminate|].
+  destruct (pop_min key l) as [[y r']|] eqn:E.
+  - destruct (IH y r' eq_refl) as [Hy Hr']. destruct (key a <=? key y)%N; inversion H; subst.
+    + split; [left; reflexivity|intros z Hz; right; exact Hz].
+    + split; [right; exact Hy|]. intros z [<-|Hz]; [left; reflexivity|right; apply Hr'; exact Hz].
+  - inversion H; subst. split; [left; reflexivity|intros z []].
+Qed.
+
+Section DijSound.
+Variable g : graph.
+Variable s : nat.
+
+Definition heap_ok (h : list (N * nat)) : Prop := forall c v, In (c, v) h -> walk g s v c.
+
+Lemma dij_relax_ok : forall cost node l h d p,
+  heap_ok h -> walk g s node cost -> (forall v w, In (v, w) l -> In (node, v, w) (ge g)) ->
+  heap_ok (fst (fst (fold_left (dij_relax cost node) l (h, d, p)))).
+Proof.
+  intros cost node l; induction l as [|[v w] l IH]; intros h d p Hh Hn Hl; cbn [fold_left]; [exact Hh|].
+  unfold dij_relax at 2.
+  destruct (match alookup v d with Some dv => (cost + w <? dv)%N | None => true end).
+  - apply IH; [|exact Hn|intros v' w' H'; apply Hl; right; exact H'].
+    intros c' v' Hin. apply in_app_iff in Hin. destruct Hin as [Hin|[E|[]]]; [apply Hh; exact Hin|].
+    inversion E; subst. eapply walk_trans; [exact Hn|]. apply walk_edge. apply Hl. left; reflexivity.
+  - apply IH; [exact Hh|exact Hn|intros v' w' H'; apply Hl; right; exact H'].
+Qed.
+
+Lemma dij_loop_cost : forall t fuel heap dist parent p c,
+  heap_ok heap -> dij_loop fuel g t heap dist parent = RPath p c -> walk g s t c.
+Proof.
+  intros t fuel; induction fuel as [|f IH]; intros heap dist parent p c Hh Hr; cbn [dij_loop] in Hr; [discriminate|].
+  destruct (pop_min fst heap) as [[[cost node] heap']|] eqn:Ep; [|discriminate].
+  destruct (pop_min_in _ _ _ _ Ep) as [Hx Hrest].
+  assert (Hh' : heap_ok heap') by (intros c' v' Hin; apply Hh, Hrest; exact Hin).
+  destruct (Nat.eqb_spec node t) as [->|Hne].
+  - destruct (recon _ _ t []) as [p'|]; [|discriminate]. inversion Hr; subst. apply Hh; exact Hx.
+  - destruct (match alookup node dist with Some d => (d <? cost)%N | None => false end).
+    + eapply IH; eassumption.
+    + pose proof (dij_relax_ok cost node (succs g node) heap' dist parent Hh' (Hh _ _ Hx)
+                    (fun v w H => proj1 (succs_in g node v w) H)) as Hok.
+      destruct (fold_left (dij_relax cost node) (succs g node) (heap', dist, parent)) as [[h2 d2] p2].
+      cbn [fst] in Hok. eapply IH; eassumption.
+Qed.
+
+End DijSound.
+
+Theorem dijkstra_model_cost_sound : forall g s t p c, wf g ->
+  dijkstra_model g s t = RPath p c ->
+  walk g s t c /\ exists c0, sp_cost g s t = Some c0 /\ (c0 <= c)%N.
+Proof.
+  intros g s t p c Hwf Hr. unfold dijkstra_model in Hr.
+  destruct ((s <? gn g) && (t <? gn g)) eqn:Hb; [|discriminate].
+  apply andb_true_iff in Hb. destruct Hb as [Hs Ht]. apply Nat.ltb_lt in Hs, Ht.
+  assert (Hw : walk g s t c).
+  { eapply (dij_loop_cost g s t _ [(0%N, s)]); [|exact Hr].
+    intros c' v' [E|[]]. inversion E; subst. apply walk_refl. }
+  split; [exact Hw|]. pose proof (sp_cost_spec g s t Hwf Hs Ht) as Hd.
+  destruct (sp_cost g s t) as [c0|]; cbn in Hd.
+  - exists c0. split; [reflexivity|apply (proj2 Hd); exact Hw].
+  - exfalso. apply Hd. exists c. exact Hw.
+Qed.
